@@ -23,7 +23,7 @@
    cache is compared with the from-scratch hashes of its own node vector on the generated histories.
    Statements only. *)
 From Coq Require Import String NArith List.
-From MlsV Require Import Res TreeMathGen TreeMathProofs Tree TreeProofs TreeWF Decap DecapProofs TreeWF5 NodeVecGen NodeVecGenProofs Kem Priv ParentHash HashCache HashCacheGen HashCacheProofs HashCacheGenProofs HashCacheTree.
+From MlsV Require Import Res TreeMathGen TreeMathProofs Tree TreeProofs TreeWF Decap DecapProofs TreeWF5 NodeVecGen NodeVecGenProofs Kem Priv ParentHash HashCache HashCacheGen HashCacheProofs HashCacheGenProofs HashCacheTree CommitStep TreeState.
 Import ListNotations.
 Local Open Scope N_scope.
 
@@ -139,7 +139,7 @@ Print Assumptions C08_hash_cache_computed_from_scratch_is_right.
 
 Theorem C08_hash_cache_stays_right_through_any_edit_confined_to_the_listed_leaves : forall pay pay' t t' c ls,
   small t' -> CacheOK pay t c ->
-  (forall n, ~ touched ls n -> get t' n = get t n /\ pay' n = pay n) ->
+  (forall n, ~ touched ls n -> get t' n = get t n /\ (get t n <> None -> pay' n = pay n)) ->
   exists c', update_hashes pay' c t' ls = Ok c' /\ CacheOK pay' t' c'.
 Proof. exact cache_right_after_a_confined_edit. Qed.
 Print Assumptions C08_hash_cache_stays_right_through_any_edit_confined_to_the_listed_leaves.
@@ -147,7 +147,7 @@ Print Assumptions C08_hash_cache_stays_right_through_any_edit_confined_to_the_li
 Theorem C08_hash_cache_stays_right_through_the_proposals : forall pay pay' t removes updates adds t' added c,
   wf3 t -> tlen t + 2 * N.of_nat (length adds) < 2 ^ 25 ->
   batch_edit t removes updates adds = TOk (t', added) ->
-  (forall n, ~ touched (removes ++ map fst updates ++ added) n -> pay' n = pay n) ->
+  (forall n, ~ touched (removes ++ map fst updates ++ added) n -> get t n <> None -> pay' n = pay n) ->
   CacheOK pay t c ->
   exists c', update_hashes pay' c t' (removes ++ map fst updates ++ added) = Ok c' /\ CacheOK pay' t' c'.
 Proof. exact cache_right_after_the_proposals. Qed.
@@ -155,7 +155,7 @@ Print Assumptions C08_hash_cache_stays_right_through_the_proposals.
 
 Theorem C08_hash_cache_stays_right_through_the_update_path : forall pay pay' t sndr id t2 c,
   small t -> small t2 -> apply_update_path t sndr id = TOk t2 ->
-  (forall n, ~ touched [sndr] n -> pay' n = pay n) ->
+  (forall n, ~ touched [sndr] n -> get t n <> None -> pay' n = pay n) ->
   CacheOK pay t c ->
   exists c', update_hashes pay' c t2 [sndr] = Ok c' /\ CacheOK pay' t2 c'.
 Proof. exact cache_right_after_the_update_path. Qed.
@@ -177,6 +177,29 @@ Theorem C08_parent_hashes_computed_by_the_committer_are_valid : forall PHF t rem
   PHValid PHF t d -> PHValid PHF t2 (decorate PHF t2 dm sndr flt fk leafkey).
 Proof. exact ph_commit_computed. Qed.
 Print Assumptions C08_parent_hashes_computed_by_the_committer_are_valid.
+
+(* ---- the whole public tree state of a member: node vector, keys and parent hashes, hash cache ----
+   In EVERY state reachable from a new group by commits with and without a path, in the order of the code
+   (batch_edit, update_hashes, apply_update_path, parent hashes of the path, update_hashes): the tree is well
+   formed (WF3, WF5, shape), every non-blank parent is parent-hash valid and the cache holds the from-scratch
+   hash at every node.  PHF: any parent-hash function; enc: any dependence of a node's encoding on its key and
+   parent hash. *)
+Theorem C08_every_reachable_tree_state_is_well_formed_parent_hash_valid_and_cached_right : forall PHF enc s,
+  treachable PHF enc s -> TInv PHF enc s.
+Proof. exact tinv_reachable. Qed.
+Print Assumptions C08_every_reachable_tree_state_is_well_formed_parent_hash_valid_and_cached_right.
+
+Theorem C08_update_hashes_never_fails_in_a_commit : forall PHF enc s removes updates adds t1 added dm,
+  TInv PHF enc s -> tlen (ts_tree s) + 2 * N.of_nat (length adds) < 2 ^ 25 ->
+  batch_edit (ts_tree s) removes updates adds = TOk (t1, added) ->
+  (forall n, ~ touched (removes ++ map fst updates ++ added) n -> get (ts_tree s) n <> None -> dm n = ts_deco s n) ->
+  exists c1, update_hashes (pay_of enc dm) (ts_cache s) t1 (removes ++ map fst updates ++ added) = Ok c1.
+Proof. exact update_hashes_never_fails_in_a_commit. Qed.
+Print Assumptions C08_update_hashes_never_fails_in_a_commit.
+
+Example C08_a_state_after_a_commit_with_a_path_is_reachable :
+  exists c, treachable ex_PHF ex_enc {| ts_tree := ex_t2; ts_deco := ex_d2; ts_cache := c |}.
+Proof. exact treachable_example. Qed.
 
 (* non-vacuity: a cache built from scratch for a three-member tree with an unmerged leaf, then kept right by
    update_hashes through a remove that shrinks nothing and an add that regrows *)
